@@ -151,7 +151,7 @@ func c01Case(r *kit.Run, idx int64, rng *rand.Rand) {
 	r.Current(idx, fmt.Sprint(desc))
 
 	wantInvoked, wantOut := false, false // which observations apply
-	ordered := false                       // exact order required
+	ordered := false                     // exact order required
 	expect := make([]int, n)
 	for i := range expect {
 		expect[i] = i + 1
